@@ -229,9 +229,15 @@ fn run_tag_list_shapes(cx: &mut CaseCx, case: &Value) {
     }
     cx.count("honest_verified", 1);
     // soundness across the tags of the same list: the evaluation for md verifies under no other tag
-    for &other in &probe {
+    // ... nor under a tag the server never published (small lists - one tag in particular: a verifier that
+    // "resolves" the tag from a single-entry key accepts any claimed tag): every value 0..=255
+    let others: Vec<u8> = if distinct.len() <= 8 { (0..=255u8).collect() } else { probe.iter().copied().chain([md.wrapping_add(1), md.wrapping_sub(1), md ^ 0x80]).collect() };
+    for &other in &others {
       if other == md {
         continue;
+      }
+      if !distinct.contains(&other) {
+        cx.count("unpublished_tag_claims", 1);
       }
       cx.eval();
       if guard(|| pp::Client::verify(&pk, &blinded, &ev, other)) == Ok(true) {
@@ -936,10 +942,10 @@ pub fn spec() -> PropSpec {
       },
       Check {
         name: "tag-list-shapes",
-        rule: "Server::new with 12 tag lists as callers may produce them (unsorted, descending, repeats adjacent / apart / at either end, one tag, the full space with and without repeats): for every distinct tag (large lists: the extremes and the middle) the honest verifiable evaluation verifies against the public key and its restored form, and verifies under NO other tag of the list",
+        rule: "Server::new with 12 tag lists as callers may produce them (unsorted, descending, repeats adjacent / apart / at either end, one tag, the full space with and without repeats): for every distinct tag (large lists: the extremes and the middle) the honest verifiable evaluation verifies against the public key and its restored form, and verifies under NO other tag - of the list, and (lists of up to 8 distinct tags, single-tag lists among them) under none of the 256 tag values a client may claim",
         gen: |_| (0..12u64).map(|i| json!({"list": i})).collect(),
         run: run_tag_list_shapes,
-        min_counts: &[("honest_verified", 40), ("cross_tag_rejected", 100)],
+        min_counts: &[("honest_verified", 40), ("cross_tag_rejected", 100), ("unpublished_tag_claims", 2000)],
       },
       Check {
         name: "after-key-sync",
